@@ -92,7 +92,10 @@ prop("C02",
 prop("C03",
      [("S1", S.S1, K01, {}), ("S2", S.S2, K01, {}), ("S3", S.S3, K01, {}), ("S5", S.S5, K01, {}),
       ("S6", S.S6, K01, {"roles_filter": ("READY", "DONE")}),
-      ("R3", B.R3, ("K0",), {"parts": ("structures", "counts")}), ("R4", B.R4, ("K0",), {}), ("O6", R.O6, K01, {}), ("T5", T.T5, K01, {}), ("Q6", R.clone_frame, ("K0",), {}), ("T6", T.T6, K01, {}), ("L6", R.L6, K01, {})],
+      ("R3", B.R3, ("K0",), {"parts": ("structures", "counts")}), ("R4", B.R4, ("K0",), {}), ("O6", R.O6, K01, {}), ("T5", T.T5, K01, {}), ("Q6", R.clone_frame, ("K0",), {}), ("T6", T.T6, K01, {}), ("L6", R.L6, K01, {}),
+      # "exactly once in a clean run" needs every released function to be handed out: the stream's poll function never parks
+      # with done notifications still queued and no wake-up registered
+      ("T3", T.T3, K01, {"want_stream": True})],
      K01,
      "Decides S2 (each ready-send is the preload of all zero-count nodes or the release at count==0 after the decrement), "
      "S3 (counts only decrease by one per predecessor edge), S6 (channel capacities are monotone in node_count so try_send never drops an id) "
@@ -227,7 +230,9 @@ prop("C07",
       ("B1", S.opts_frame, K01, {"fields": ("StreamOrder",)}), ("B2", S.order_wiring, K01, {}),
       ("R2", B.R2, ("K0",), {"strict_order": False}), ("R3", B.R3, ("K0",), {"parts": ("structures", "counts")}), ("S1", S.S1, K01, {}), ("R6", B.D2_coverage, ("K0",), {}), ("R1", B.R1, ("K0",), {}), ("R7", B.R7, ("K0",), {}), ("ID", B.ID_rules, ("K0",), {}), ("E", B.C16_rules, ("K0",), {}),
       ("A1", T.A1, K01, {}), ("N7", B.N7, K01, {}), ("L5", R.L5, K01, {}), ("P2", T.P2, K01, {}), ("T5", T.T5, K01, {}),
-      ("S2", S.S2, K01, {}), ("S3", S.S3, K01, {}), ("R5", B.R5, ("K0", "K3"), {})],
+      ("S2", S.S2, K01, {}), ("S3", S.S3, K01, {}), ("R5", B.R5, ("K0", "K3"), {}),
+      # which of two conflicting functions is the dependent is decided by the ranks (D1 sorts by rank): a wrong rank reverses a Data edge
+      ("K", B.C13_rules, ("K0",), {}), ("D1", B.D1, ("K0",), {})],
      ("K0", "K1", "K3"),
      "Decides F1 (on the Err arm of the user future exactly one awaited send on the RESULT channel carries that error), F2 (from the Err arm every "
      "path to the done-send passes through the release of the done-sender), F3 (RESULT capacity monotone in node_count; its receiver is drained only "
